@@ -79,18 +79,23 @@ func SetCondition(status map[string]interface{}, condition *StatusCondition) err
 		return err
 	}
 	// If the condition is already there, update it.
+	// NestedSlice returns a deep copy, so the result always has to be written back.
+	updated := false
 	if found {
 		for i, item := range conditions {
 			if cobj, ok := item.(map[string]interface{}); ok {
 				if ctype, ok := cobj["type"].(string); ok && ctype == condition.Type {
 					conditions[i] = condition.Object()
-					return nil
+					updated = true
+					break
 				}
 			}
 		}
 	}
-	// The condition wasn't found. Append it.
-	conditions = append(conditions, condition.Object())
+	if !updated {
+		// The condition wasn't found. Append it.
+		conditions = append(conditions, condition.Object())
+	}
 	if err := unstructured.SetNestedField(status, conditions, "conditions"); err != nil {
 		return err
 	}
